@@ -272,6 +272,12 @@ func (ru *Rule) Body(r *rand.Rand) string {
 		return b.String()
 	}
 	if ru.Fails() && ru.FailInReturn {
+		if r.Intn(3) == 0 {
+			// the returned value cannot be handed out at all (an unexported field read through reflection): the
+			// rule fails at its return - it has no result entry
+			fmt.Fprintf(&b, "zq9 = fl(%d)%sreturn hid.h%s", id, ws(r), ws(r))
+			return b.String()
+		}
 		fmt.Fprintf(&b, "return 1 / fl(%d)%s", id, ws(r))
 		return b.String()
 	}
